@@ -126,7 +126,46 @@ def generate(L):
             or "b'\\\\' => { pos += 2; }" not in n:
         raise L.GenError("try_remap_base_commit_sha_field: scan shape changed")
 
+    # ---- composition of two attribution sets (squash / CI rewrite, reset, stash restore, commit)
+    mf = _norm(L.find_fn(va, "merge_attributions_favoring_first", "virtual_attribution.rs"))
+    if "all_files.extend(secondary.attributions.keys().cloned());" not in mf or "all_files.extend(final_state.keys().cloned());" not in mf \
+            or "primary.attributions.keys().cloned().collect();" not in mf:
+        raise L.GenError("merge_attributions_favoring_first: the union of files changed")
+    m = re.search(r"for file_path in all_files \{ (?:// [^\n]*)?let final_content = match final_state ?\.get\(&file_path\) ?(.*?) ?\{ "
+                  r"Some\(content\) => content, None => continue, \};", mf)
+    if not m:
+        raise L.GenError("merge_attributions_favoring_first: the final-content lookup has an unrecognised shape")
+    fallbacks = m.group(1).strip()
+    if fallbacks == "":
+        merge_skips_absent = True          # a file that is not in final_state is skipped
+    elif re.fullmatch(r"(\.or_else\(\|\| (primary|secondary)\.get_file_content\(&file_path\)\) ?)+", fallbacks + " "):
+        merge_skips_absent = False         # ... is kept with the content one of the inputs remembers
+    else:
+        raise L.GenError(f"merge_attributions_favoring_first: unknown fallback {fallbacks!r}")
+    if mf.count("merged .attributions .insert(") + mf.count("merged.attributions.insert(") != 1 or \
+            "attributions_to_line_attributions( &merged_char_attrs, final_content, )" not in mf:
+        raise L.GenError("merge_attributions_favoring_first: the insertion of merged files changed")
+    sq = _norm(L.find_fn(ra, "rewrite_authorship_after_squash_or_rebase", rel2))
+    i1 = sq.find("let committed_files = get_committed_files_content(repo, merge_commit_sha, &changed_files)?;")
+    i2 = sq.find("let merged_va = merge_attributions_favoring_first(target_va, source_va, committed_files)?;")
+    i3 = sq.find("let mut authorship_log = merged_va.to_authorship_log()?;")
+    i4 = sq.find("authorship_log.metadata.base_commit_sha = merge_commit_sha.to_string();")
+    i5 = sq.find("crate::git::refs::notes_add(repo, merge_commit_sha, &authorship_json)?;", i4)
+    if not (0 <= i1 < i2 < i3 < i4 < i5):
+        raise L.GenError("rewrite_authorship_after_squash_or_rebase: committed files -> merge -> to_authorship_log -> notes_add changed")
+    gc = _norm(L.find_fn(ra, "get_committed_files_content", rel2))
+    if "match tree.get_path(std::path::Path::new(file_path)) { Ok(entry) => {" not in gc or gc.count("files.insert(") != 1 \
+            or not re.search(r"Err\(_\) => \{ \}", gc):
+        raise L.GenError("get_committed_files_content: files missing from the commit are no longer skipped")
+    tl = _norm(L.find_fn(va, "to_authorship_log", "virtual_attribution.rs"))
+    if "for (file_path, (_, line_attrs)) in &self.attributions {" not in tl:
+        raise L.GenError("to_authorship_log no longer iterates the attribution map only")
+
     out = []
+    out.append("(* merge_attributions_favoring_first: a file missing from the caller's final state is skipped *)")
+    out.append(f"Definition gn_merge_skips_absent : bool := {L.coq_bool(merge_skips_absent)}.")
+    out.append("(* squash / CI rewrite: 0 committed files of the merge commit, 1 merge favoring the target, 2 to_authorship_log, 3 notes_add *)")
+    out.append("Definition gn_squash_pipeline : list N := [0; 1; 2; 3].")
     out.append(f"Definition gn_fanout_split : nat := {split}%nat.")
     out.append("(* per entry of a batch write: 0 = D flat (only when flat <> fanout), 1 = D fanout, 2 = M fanout *)")
     out.append("Definition gn_batch_cmds : list N := [0; 1; 2].")
